@@ -136,6 +136,13 @@ int main(int argc, char** argv)
     child = fork();
     if (child < 0) { perror("fork"); return 2; }
     if (child == 0) {
+        /* the traced program starts with the default disposition of SIGINT / SIGTERM and nothing blocked:
+         * a check started as a background job of a non-interactive shell inherits SIGINT ignored, and a
+         * signal sent before zstd installs its handler would then be dropped instead of ending the run */
+        {   sigset_t none;
+            signal(SIGINT, SIG_DFL); signal(SIGTERM, SIG_DFL); signal(SIGQUIT, SIG_DFL);
+            sigemptyset(&none); sigprocmask(SIG_SETMASK, &none, NULL);
+        }
         ptrace(PTRACE_TRACEME, 0, 0, 0);
         raise(SIGSTOP);
         execv(argv[5], argv + 5);
